@@ -218,6 +218,17 @@ def classify(o: Occ, run, static_optional) -> str:
             if is_lower_bound_test(c, o.leaf):
                 return "G3"
     if o.test:
+        # a test of the time against a constant is a test of "is it scheduled / selected": moved points are -1, -2, ...,
+        # so the only thresholds that separate them from real times are `t >= 0` and its negation `t <= -1`
+        from sa.decide import canon_atom
+        for a in reversed(o.anc):
+            if is_app(a) and a[1] in ("<", "<=", ">", ">=", "==", "!=") and len(a) == 4:
+                ca = canon_atom(a)
+                if ca is not None and ca[0] == "le" and len(ca[1].coef) == 1 and norm(o.leaf) in ca[1].coef:
+                    coef, const = ca[1].coef[norm(o.leaf)], ca[1].const
+                    if not ((coef < 0 and const == 0) or (coef > 0 and const == coef)):
+                        return "U"
+                break
         return "T"
     if same_interval_difference(o):
         return "G5"
@@ -509,8 +520,7 @@ def r_opt_rules(ctx):
             else:
                 ctx.violation("R-PB-TABLE", where, f"kind={kind}: cardinality over the scheduled flags",
                               f"expected {show(want)[:240]}, emitted {[show(g)[:240] for g in got]}" + (f" - {sem_detail}" if sem_detail else ""), location)
-            raises = [ev for ev in run.events_of("raise") if "optional" in show(And(*ev.guards))] if run.events_of("raise") else []
-            if any(ev.loops and norm(ev.loops[0][3]) == T("list_of_optional_tasks") for ev in raises):
+            if any(rejects_an_element(ev, T("list_of_optional_tasks"), "optional") for ev in run.events_of("raise")):
                 ctx.ok("R-RAISE-OPTIONAL", f"{where} kind={kind} rejects a mandatory task in the list")
             else:
                 ctx.violation("R-RAISE-OPTIONAL", where, "mandatory task in the list accepted",
